@@ -3,19 +3,20 @@ CONSTANTS
   Paths <- StdPaths
   PathOrder <- StdPathOrder
   IgnoreVocab <- StdIgnoreVocab
-  Bug = "none"
-  MaxSteps = 8
+  Bug = "co-labels-file-only"
+  MaxSteps = 4
   MaxEditRun = 3
   Acts = {"CheckOut", "Snapshot", "SetSparse"}
   EditPaths <- AllEditPaths
   Contents = {1, 2}
-  SymTargets = {"out", "f", "out/x"}
-  RootIgnore = {1, 2, 3, 4, 7}
-  DirIgnore = {3, 5, 6}
-  TreeIds = {1, 2, 3, 4, 5, 6, 7, 8, 9, 10, 11, 12, 13, 14, 15, 16, 17, 18}
-  SparseIds = {1, 2, 3, 4, 5, 6}
+  SymTargets = {"out"}
+  RootIgnore = {}
+  DirIgnore = {}
+  TreeIds = {1, 14, 15, 16, 17}
+  SparseIds = {1, 2, 4}
   XP = "respect"
   Strict = "none"
-  Emit = TRUE
-INVARIANTS EmitInv
+  Emit = FALSE
+INVARIANTS Inv_C24
+VIEW View
 CHECK_DEADLOCK FALSE
